@@ -109,7 +109,7 @@ ADDED = {
     "C15": " Also: (c) each Givens step of the Clements sweep nulls one element of the addressed pair for the angles _get_angles returns, symbolically for every non-zero pivot and with the degenerate arm's constants for a zero pivot.",
     "C16": " Also: a fullness test by length, or any test over order-insensitive aggregates of the mode tuple (len/min/max/sum/set) that substitutes a value ignoring the tuple; the complement of the complement; outcome projections that run in parallel with the mode tuple.",
     "C18": " Also: every use of an operand's raw amplitude map in __add__ is weighted by that operand's coefficient.",
-    "C19": " Also: no one-sided skip guard around emitted instructions; no sorted/set image of a gate's qubit operands.",
+    "C19": " Also: no one-sided skip guard around emitted instructions; no sorted/set image of a gate's qubit operands; no bit resolved by its position in an instruction's own operand list.",
     "C20": " Also: the whitelist is closed under subclassing (it is applied with isinstance) and every admitted operator class is a key of the table _eval uses; no comparator of a chained comparison is evaluated before the earlier links are tested.",
 }
 
